@@ -2014,14 +2014,23 @@ theorem gRemap_eq_rec_aux (c : GCfg) (n : Nat) (root : Val) (r : GRes) (hr : gRo
   unfold gRoot at hr
   split at hr
   · rename_i hen
-    injection hr with hr; subst hr
     refine ⟨1, fun m' hm => ?_⟩
     obtain ⟨d, rfl⟩ := Nat.exists_eq_add_of_le hm
-    have e1 : grun c 1 (ginit root) = ⟨[], [], [], root, false, true⟩ := by
-      apply grun_one; simp [gstep, ginit, hen]
-    simp only [gRemapIter]
-    rw [grun_add, e1, grun_stuck c _ (by simp [gstep])]
-    simp
+    split at hr
+    · rename_i hv
+      injection hr with hr; subst hr
+      have e1 : grun c 1 (ginit root) = ⟨[], [], [], root, false, false⟩ := by
+        apply grun_one; simp [gstep, ginit, hen, hv]
+      simp only [gRemapIter]
+      rw [grun_add, e1, grun_stuck c _ (by simp [gstep])]
+      simp
+    · rename_i hv
+      injection hr with hr; subst hr
+      have e1 : grun c 1 (ginit root) = ⟨[], [], [], root, false, true⟩ := by
+        apply grun_one; simp [gstep, ginit, hen, hv]
+      simp only [gRemapIter]
+      rw [grun_add, e1, grun_stuck c _ (by simp [gstep])]
+      simp
   · rename_i np items hen
     split at hr
     · simp at hr
